@@ -223,7 +223,10 @@ def check(run):
         a = arr(keys, (n, 1) if col else (1, n))
         case = {'function': 'MATCH', 'mode': mode, 'value': repr(val), 'keys': [repr(k) for k in keys]}
         try:
-            got = call('=MATCH(A1,B1:B9,%d)' % mode, A1=arr([val], (1, 1)), **{'B1:B9': a})
+            # mode 1 also with the third argument omitted (its default)
+            omitted = mode == 1 and rnd.random() < 0.4
+            case['third_argument'] = 'omitted' if omitted else mode
+            got = call('=MATCH(A1,B1:B9)' if omitted else '=MATCH(A1,B1:B9,%d)' % mode, A1=arr([val], (1, 1)), **{'B1:B9': a})
         except Exception as ex:
             run.violation('MATCH raised %s: %s' % (type(ex).__name__, str(ex)[:80]), case); continue
         p = spec_match(mode, val, keys)
@@ -279,7 +282,10 @@ def check(run):
             else:
                 idx = rnd.randint(1, (C if f == 'VLOOKUP' else R) + 1)
                 case['index'] = idx
-                got = call('=%s(A1,B1:G6,%d,%s)' % (f, idx, 'TRUE' if approx else 'FALSE'), A1=arr([val], (1, 1)), **{'B1:G6': arr(flat, (R, C))})
+                # the fourth argument in every spelling Excel accepts; omitted (and empty) means an approximate match
+                how = rnd.choice(['TRUE', '1', 'omitted', 'omitted']) if approx else rnd.choice(['FALSE', '0'])
+                case['fourth_argument'] = how
+                got = call('=%s(A1,B1:G6,%d%s)' % (f, idx, '' if how == 'omitted' else ',' + how), A1=arr([val], (1, 1)), **{'B1:G6': arr(flat, (R, C))})
                 p = spec_match(1 if approx else 0, val, keys)
                 lim = C if f == 'VLOOKUP' else R
                 if idx > lim:
